@@ -314,6 +314,106 @@ def r12_4(ctx: Ctx, rep: Report) -> None:
                     rep.violation(q, f"{acc}.append(...) x{worst} in one iteration", "a line can contribute more than one item", where(f))
 
 
+def accumulator_only_grows(ctx: Ctx, rep: Report, rid: str = "R12.11") -> None:
+    """What a builder has collected for one line is not taken back because of a later line: the list that becomes the
+    items only grows (no pop / remove / del / clear / slice assignment)."""
+    rep.rule(rid)
+    n = 0
+    for q in ("Acl.line.setter", "AceGroup.line.setter", "AddrGroup.line.setter", "AddrGroup.items.setter", "AceGroup.items.setter", "Acl.items.setter"):
+        f = ctx.func(q)
+        acc = _accumulator(f)
+        if acc is None:
+            continue
+        n += 1
+        rep.instance()
+        bad = None
+        for x in own_nodes(f.node):
+            if isinstance(x, ast.Call) and isinstance(x.func, ast.Attribute) and src(x.func.value) == acc and x.func.attr in ("pop", "remove", "clear", "reverse", "sort"):
+                bad = bad or x
+            if isinstance(x, ast.Delete) and any(isinstance(t, ast.Subscript) and src(t.value) == acc for t in x.targets):
+                bad = bad or x
+            if isinstance(x, ast.Assign) and any(isinstance(t, ast.Subscript) and src(t.value) == acc for t in x.targets):
+                bad = bad or x
+        if bad is not None:
+            rep.violation(q, snippet(bad), f"an item already collected in `{acc}` is taken out again: a valid line before an invalid one disappears without a trace", where(f, bad), inp="a remark directly above an unparsable permit line")
+        else:
+            rep.ok(f"{q}: `{acc}`", "only grows", where=where(f))
+    rep.floor(2, "builders with an accumulator") if n else None
+
+
+def no_dedup_collection(ctx: Ctx, rep: Report, rid: str = "R12.12") -> None:
+    """Parsed lines are collected with list operations: the set-like `Group.add` / `Group.update` (which skip an item
+    equal to one already there - equality is the rendered text) are for the user, package code that collects lines does
+    not call them (two identical lines of a configuration are two entries)."""
+    rep.rule(rid)
+    grp = ctx.prog.classes.get("Group")
+    rep.require(grp is not None, "class Group vanished")
+    dedup = [m for m in grp.methods.values() if any(isinstance(x, ast.Compare) and len(x.ops) == 1 and isinstance(x.ops[0], ast.NotIn) and "items" in src(x.comparators[0]) for x in own_nodes(m.node))]
+    changed = True
+    while changed:
+        changed = False
+        for m in grp.methods.values():
+            if m in dedup:
+                continue
+            if any(e.target in dedup and not e.weak for e in ctx.cg.all_edges(m)):
+                dedup.append(m)
+                changed = True
+    names = {m.name for m in dedup}
+    rep.instance()
+    rep.require(bool(dedup), "Group lost its set-like add (the rule has nothing to protect)")
+    bad = []
+    for f in ctx.prog.funcs:
+        if f.cls is grp:
+            continue
+        for e in ctx.cg.all_edges(f):
+            if e.kind == "call" and not e.weak and e.target in dedup and isinstance(e.site, ast.Call):
+                bad.append((f, e.site))
+        # unresolved receivers: `<x>.add(item)` / `.update(items)` on something that is not a set/dict literal-bound local
+    if bad:
+        f, c = bad[0]
+        rep.violation(f.qualname, snippet(c), f"entries are collected through the de-duplicating Group.{'/'.join(sorted(names))}: a line equal to an earlier one (a repeated separator remark, 'eq 53' next to 'eq domain') is dropped without a trace", where(f, c), inp="two identical remark lines in one ACL section")
+    else:
+        rep.ok("package", f"no package code outside Group calls the set-like {sorted(names)}", where="cisco_acl/group.py")
+
+
+def classifier_ignores_values(ctx: Ctx, rep: Report, rid: str = "R12.13") -> None:
+    """The line classifier tells rule lines from other lines by their keywords; a number in front is a sequence number
+    whatever its value: no negative answer depends on a comparison of that number (every number a sequence setter
+    accepts, 0..SEQUENCE_MAX, must pass)."""
+    from ..intervals import IntSet, NotInterval, cond_to_intset
+
+    rep.rule(rid)
+    f = ctx.func("helpers.is_line_for_acl")
+    cfg = ctx.cfg(f)
+    smax = ctx.folder.const("helpers", "SEQUENCE_MAX")
+    accepted = IntSet([(0, int(smax))])
+    n = 0
+    for c in cfg.live:
+        if c.kind != "cond" or c.ast is None:
+            continue
+        if not any(isinstance(x, ast.Call) and isinstance(x.func, ast.Name) and x.func.id == "int" for x in ast.walk(c.ast)):
+            continue
+        n += 1
+        rep.instance()
+        try:
+            held = cond_to_intset(c.ast, lambda x: isinstance(x, ast.Call) and isinstance(x.func, ast.Name) and x.func.id == "int", lambda x: ctx.folder.fold(x, f.module))
+        except NotInterval:
+            rep.violation("helpers.is_line_for_acl", snippet(c.ast), "a numeric test of the leading number that cannot be read as an interval stands in the classifier", where(f, c.ast))
+            continue
+        for lab, rejected in (("T", held), ("F", held.complement())):
+            succ = c.succs(lab)
+            falsy = [s for s in succ if s.kind == "stmt" and isinstance(s.ast, ast.Return) and isinstance(s.ast.value, ast.Constant) and not s.ast.value.value]
+            if falsy:
+                lost = rejected.intersect(accepted)
+                if lost.ivs:
+                    rep.violation("helpers.is_line_for_acl", snippet(c.ast), f"lines whose sequence number is in {lost} are classified as 'not a rule line' and dropped, although the sequence setters accept these numbers", where(f, c.ast), inp=f"'{int(smax)} permit ip any any'")
+                else:
+                    rep.ok(f"helpers.is_line_for_acl: {snippet(c.ast, 40)}", "rejects no acceptable sequence number", where=where(f, c.ast))
+    rep.instance()
+    if n == 0:
+        rep.ok("helpers.is_line_for_acl", "no answer depends on the value of the leading number", nontrivial=False, where=where(f))
+
+
 def _accumulator(f: Func) -> Optional[str]:
     """Local list that receives `.append(...)` in the function and occurs in the value stored to self.items."""
     appended = {src(n.func.value) for n in own_nodes(f.node) if isinstance(n, ast.Call) and isinstance(n.func, ast.Attribute) and n.func.attr == "append" and isinstance(n.func.value, ast.Name)}
@@ -582,6 +682,9 @@ def run(ctx: Ctx, rep: Report, tier: str) -> None:
     r12_4(ctx, rep)
     line_filters(ctx, rep)
     every_line_converted(ctx, rep)
+    accumulator_only_grows(ctx, rep)
+    no_dedup_collection(ctx, rep)
+    classifier_ignores_values(ctx, rep)
     # R12.9 premise: the whitespace normaliser the builders apply first maps every spelling of a line to its canonical
     # form (C06 R06.5): a line it leaves un-normalised matches no pattern and is dropped
     from .c06 import normaliser_fixed_point
